@@ -340,6 +340,27 @@ Theorem C14_population_history_reload : forall fe now cfg H,
 Proof. exact ps_pop_history_reload. Qed.
 Print Assumptions C14_population_history_reload.
 
+(* ... and followed by the whole stop/start cycle: every object has its own version back, whether or not it lists
+   modified attributes (the state file carries the version of every object) *)
+Theorem C14_population_history_restart : forall fe now cfg H,
+  NoDup (map ps_c_name cfg) -> (forall c, In c cfg -> ps_pcfg_ok fe c) ->
+  (forall c, In c cfg -> ps_hist_ok fe (ps_c_P c) (ps_c_o0 c) (ps_pop_proj (ps_c_name c) H)) ->
+  let running := ps_pop_run fe (ps_pop_cfg cfg) H in
+  (forall c, In c cfg -> forall k x, In (k, x) (ps_orig_dict (ps_run fe (ps_c_o0 c) (ps_pop_proj (ps_c_name c) H))) ->
+     ps_listed_ok fe (ps_run fe (ps_c_o0 c) (ps_pop_proj (ps_c_name c) H)) k) ->
+  exists r,
+    ps_pop_restart fe now running (ps_pop_cfg cfg) = Some (true, r) /\
+    map ps_p_name r = map ps_c_name cfg /\
+    (forall c, In c cfg -> exists cur ro,
+       ps_pop_find (ps_c_name c) running = Some cur /\ ps_pop_find (ps_c_name c) r = Some ro /\
+       (forall p, In p (ps_c_P c) -> ps_get_attr p ro = ps_get_attr p cur) /\
+       (forall q, (forall p, In p (ps_c_P c) -> ps_incomp p q) -> ps_get_attr q ro = ps_get_attr q cur) /\
+       (forall k x, In (k, x) (ps_orig_dict ro) <-> In (k, x) (ps_orig_dict cur)) /\
+       ps_m_version ro = ps_m_version cur /\
+       (ps_orig_dict cur = [] -> ro = ps_set_version (ps_m_version cur) (ps_c_o0 c))).
+Proof. exact ps_pop_history_restart. Qed.
+Print Assumptions C14_population_history_restart.
+
 (* ---------------------------------------------------------------- sizes: the state file as framed records *)
 (* "whatever their content" includes SIZE.  The state file is a sequence of netstring-framed JSON records; jlen is the byte
    length of a record's JSON text (an input of the model).  For every population, every jlen and every limit configuration
